@@ -9,6 +9,10 @@
     @i <line>   address slot i of the pool of live containers (default slot 0);   @i TOF j   copy slot j into slot i
     P <L|FL|FF|F> k v   A <mode> k v   AN k v   G k   GL k   CK k   CV v   FK LK FV LV   R k   RF RL
     C   SZ IE IF   SM n   SO asc|desc   KS VS ES
+    extended API (`Golib.HMap.Entry`, theorem `C09.refine_xstep`):
+    ESV k v  (SetValue on the live entry of k)   UP k  (Unipoint)   ENF k  (enumerator opened at the entry of k)
+    VI  (ValueIterator)   TS / TF  (ToString / ToFormatString: hex text, `|f<bits>|` = a float32 printed with %f)
+    TKS  (ToKeySet)   EQ k1 k2  (entry Equals : HashCode)
 
   Answer: the Spec's output;  `MISMATCH …` if the CodeModel's output or abstraction differs
   (cannot happen: `C09.refine_step`).  Keys: integers, or strings over [A-Za-z0-9_] with `~` = "".
@@ -19,6 +23,7 @@ import Golib.HMap.Multi
 import Golib.HMap.Enum
 import Golib.HMap.Proto
 import Golib.HMap.Wire
+import Golib.HMap.EntryTypes
 import Driver.Common
 
 open HMap Drv HMap.Proto
@@ -30,6 +35,7 @@ structure Sess (K : Type) [DecidableEq K] where
   spec : S K Int
   conc : LMap K Int
   sv : Int → String          -- how a value of this type is printed
+  ek : EntryKind K Int       -- the entry objects of this type
   float : Bool := false      -- values travel as 4-byte float patterns in ToBytes / ToObject
 
 inductive St
@@ -84,8 +90,38 @@ def parseOp [LT K] [DecidableRel (α := K) (· < ·)] (pk : String → Option K)
   | ["ES"] => some .entries
   | _ => none
 
+def parseXOp (pk : String → Option K) (ws : List String) : Option (XOp K Int) :=
+  match ws with
+  | ["ESV", k, v] => do some (.entrySetValue (← pk k) (← parseVal v))
+  | ["UP", k] => do some (.unipoint (← pk k) 0)
+  | ["ENF", k] => do some (.enumFrom (← pk k))
+  | ["VI"] => some .valueIterator
+  | ["TS"] => some (.toString false)
+  | ["TF"] => some (.toString true)
+  | ["TKS"] => some .toKeySet
+  | ["EQ", a, b] => do some (.entryEquals (← pk a) (← pk b))
+  | _ => none
+
+def showText (bs : List Nat) : String :=
+  String.join (bs.map (fun b =>
+    if b < 256 then String.ofList [Proto.hexDigit (b / 16), Proto.hexDigit (b % 16)] else "|f" ++ toString (b - 256) ++ "|"))
+
+def showXOut (sk : K → String) (sv : Int → String) : XOut K Int → String
+  | .out o => showOut sk sv o
+  | .text bs => "x" ++ showText bs
+  | .eq b h => (if b then "T" else "F") ++ ":" ++ toString h
+
 def stepSess [DecidableEq K] [LT K] [DecidableRel (α := K) (· < ·)]
     (pk : String → Option K) (sk : K → String) (s : Sess K) (ws : List String) : Sess K × String :=
+  match parseXOp pk ws with
+  | some xop =>
+    -- the dictionary's answer, and the CodeModel's (table cell / enumerator objects / text loop): equal by `C09.refine_xstep`
+    let (sp, o1) := S.xstep s.d s.ek s.spec xop
+    let (cm, o2) := LMap.xstep s.hash s.thr s.d s.ek s.conc xop
+    let txt := showXOut sk s.sv o1
+    let txt := if o1 = o2 then txt else "MISMATCH spec=" ++ txt ++ " model=" ++ showXOut sk s.sv o2
+    ({ s with spec := sp, conc := cm }, txt)
+  | none =>
   match parseOp pk ws with
   | none => (s, "bad-op")
   | some op =>
@@ -126,8 +162,10 @@ def strHash : String → Option (BKey → Nat)
   | _ => none
 
 def newSess [DecidableEq K] (t : TypeDesc) (isEmpty : K → Bool)
-    (hash : K → Nat) (cap : Nat) (tbl : List (Nat × Nat)) : Sess K :=
-  { d := t.descOf isEmpty, hash := hash, thr := thrOf tbl, spec := {}, conc := LMap.new (thrOf tbl) cap, sv := showVal t, float := t.val == .float32 }
+    (hash : K → Nat) (cap : Nat) (tbl : List (Nat × Nat)) (showK : K → List Nat) (hashK : EntryDesc → K → Int → Nat) : Sess K :=
+  let e := (findEntryDesc t.name).getD ⟨t.name, "", "", "", "", [], ""⟩
+  { d := t.descOf isEmpty, hash := hash, thr := thrOf tbl, spec := {}, conc := LMap.new (thrOf tbl) cap, sv := showVal t, float := t.val == .float32,
+    ek := entryKindOf t e showK (hashK e) }
 
 def answer1 (st : St) (ws : List String) : St × String :=
   match ws with
@@ -137,11 +175,11 @@ def answer1 (st : St) (ws : List String) : St × String :=
     | some t, some cap, some tbl =>
       if t.key != .str then
         match intHash hk with
-        | some h => (.ints (newSess t (fun _ => false) h cap tbl), "ok")
+        | some h => (.ints (newSess t (fun _ => false) h cap tbl decBytes (entryHash t)), "ok")
         | none => (st, "bad-new")
       else
         match strHash hk with
-        | some h => (.strs (newSess t (fun (s : BKey) => s.isEmpty) h cap tbl), "ok")
+        | some h => (.strs (newSess t (fun (s : BKey) => s.isEmpty) h cap tbl id (fun _ _ _ => 0)), "ok")
         | none => (st, "bad-new")
     | _, _, _ => (st, "bad-new")
   | _ =>
